@@ -1,3 +1,5 @@
+#[cfg(adlt_verif)]
+use adlt_verif_seam::std;
 pub mod anonymize;
 pub mod can;
 pub mod export;
